@@ -76,7 +76,7 @@ cluster-wide) that matches `q`. -/
 theorem exposure_complete (x : XEngine) (ha : x.eng.anps = []) (hb : x.eng.banp = none)
     (hv : NpValid x.eng) (hnn : NamesNonEmpty x.eng) (hreps : ∀ krp ∈ x.reps, RepWF krp.2)
     (n : String) (pod : Pod) (hpod : pod.isRepresentative = false ∧ pod.ValidPorts)
-    (hname : pod.name ≠ representativePodName) (ns : NsObj) (hns : x.eng.findNs pod.ns = some ns)
+    (ns : NsObj) (hns : x.eng.findNs pod.ns = some ns)
     (i : Bool) (hprot : isProtected x.eng pod i = true) (res : Option (Bool × List XEntry))
     (h : xgressExposure x (.wl n pod) i = .ok res) (q : Pod) (nsl : Labels) (pr : Proto) (p : Int)
     (hp : inRange p)
@@ -89,7 +89,7 @@ theorem exposure_complete (x : XEngine) (ha : x.eng.anps = []) (hb : x.eng.banp 
   have hgov : Spec.governs x.eng.toView pod (dirOf i) = true := by
     rw [← C06.protected_iff_governs x.eng pod hpod.1 i]; exact hprot
   have hnp := npAllows_of_allowedDir x.eng.toView ha hb pod ns.labels _ _ _ pr p hgov hal
-  obtain ⟨ns', hns', h1 | h1⟩ := xgressExposure_spec x hv hreps n pod hpod hname i res h
+  obtain ⟨ns', hns', h1 | h1⟩ := xgressExposure_spec x hv hreps n pod hpod i res h
   · rw [hprot] at h1; cases h1.1
   · rw [hns] at hns'
     cases hns'
@@ -118,7 +118,7 @@ theorem exposed_peers_complete (x : XEngine) (ha : x.eng.anps = []) (hb : x.eng.
     (hx : exposedPeers x peers focus = .ok xs) (n : String) (pod : Pod)
     (hw : LPeer.wl n pod ∈ peers) (hf : isFocus focus (.wl n pod) = true)
     (hpod : pod.isRepresentative = false ∧ pod.ValidPorts)
-    (hname : pod.name ≠ representativePodName) (ns : NsObj) (hns : x.eng.findNs pod.ns = some ns)
+    (ns : NsObj) (hns : x.eng.findNs pod.ns = some ns)
     (i : Bool) (hprot : isProtected x.eng pod i = true) (q : Pod) (nsl : Labels) (pr : Proto)
     (p : Int) (hp : inRange p)
     (hcov : ∀ np r, PRule x.eng pod (dirOf i) np r → isCW r = false → ∀ peer ∈ r.peers,
@@ -129,12 +129,12 @@ theorem exposed_peers_complete (x : XEngine) (ha : x.eng.anps = []) (hb : x.eng.
       (en.entireCluster = true ∨ Sat en.podSel en.nsSel q nsl) ∧ denFor i en.conn q pr p := by
   obtain ⟨ri, rg, hi, hg, hcase⟩ := exposedPeers_mem_of hx hw hf
   cases i
-  · obtain ⟨entries, rfl, en, hen, hs⟩ := exposure_complete x ha hb hv hnn hreps n pod hpod hname ns
+  · obtain ⟨entries, rfl, en, hen, hs⟩ := exposure_complete x ha hb hv hnn hreps n pod hpod ns
       hns false hprot rg hg q nsl pr p hp hcov hal
     rcases hcase with ⟨_, h2⟩ | hmem
     · cases h2
     · exact ⟨_, hmem, rfl, en, hen, hs⟩
-  · obtain ⟨entries, rfl, en, hen, hs⟩ := exposure_complete x ha hb hv hnn hreps n pod hpod hname ns
+  · obtain ⟨entries, rfl, en, hen, hs⟩ := exposure_complete x ha hb hv hnn hreps n pod hpod ns
       hns true hprot ri hi q nsl pr p hp hcov hal
     rcases hcase with ⟨h1, _⟩ | hmem
     · cases h1
@@ -151,7 +151,7 @@ of the input (no two different selector pairs with the same key). -/
 theorem exposure_complete_build (objs : List Obj) (x : XEngine) (hbuild : Exposure.build objs = .ok x)
     (hK : KeyFaithful x.eng) (hv : NpValid x.eng) (hnn : NamesNonEmpty x.eng) (n : String) (pod : Pod)
     (hpod : pod.isRepresentative = false ∧ pod.ValidPorts)
-    (hname : pod.name ≠ representativePodName) (ns : NsObj) (hns : x.eng.findNs pod.ns = some ns)
+    (ns : NsObj) (hns : x.eng.findNs pod.ns = some ns)
     (i : Bool) (hprot : isProtected x.eng pod i = true) (res : Option (Bool × List XEntry))
     (h : xgressExposure x (.wl n pod) i = .ok res) (q : Pod) (nsl : Labels)
     (hc : NsConsistent q nsl) (pr : Proto) (p : Int) (hp : inRange p)
@@ -170,7 +170,7 @@ theorem exposure_complete_build (objs : List Obj) (x : XEngine) (hbuild : Exposu
   · exact Or.inr hex
   · left
     obtain ⟨ha, hb, hreps, _⟩ := C06.build_provides hbuild
-    apply exposure_complete x ha hb hv hnn hreps n pod hpod hname ns hns i hprot res h q nsl pr p hp
+    apply exposure_complete x ha hb hv hnn hreps n pod hpod ns hns i hprot res h q nsl pr p hp
       ?_ hal
     intro np r hP hcw peer hpeer hm
     cases peer with
@@ -190,7 +190,7 @@ theorem exposure_complete_build_syntactic (objs : List Obj) (x : XEngine)
     (hbuild : Exposure.build objs = .ok x) (hok : SelectorsOK x.eng)
     (hv : NpValid x.eng) (hnn : NamesNonEmpty x.eng) (n : String) (pod : Pod)
     (hpod : pod.isRepresentative = false ∧ pod.ValidPorts)
-    (hname : pod.name ≠ representativePodName) (ns : NsObj) (hns : x.eng.findNs pod.ns = some ns)
+    (ns : NsObj) (hns : x.eng.findNs pod.ns = some ns)
     (i : Bool) (hprot : isProtected x.eng pod i = true) (res : Option (Bool × List XEntry))
     (h : xgressExposure x (.wl n pod) i = .ok res) (q : Pod) (nsl : Labels)
     (hc : NsConsistent q nsl) (pr : Proto) (p : Int) (hp : inRange p)
@@ -202,7 +202,7 @@ theorem exposure_complete_build_syntactic (objs : List Obj) (x : XEngine)
       NPPeer.sel podSel nsSel ∈ r.peers ∧
       Spec.npPeerMatches np (.sel podSel nsSel) (.pod q nsl) = true ∧
       Omitted x objs podSel (nsSel.getD (nsNameSelector np.ns))) :=
-  exposure_complete_build objs x hbuild (keyFaithful_of_ok hok) hv hnn n pod hpod hname ns
+  exposure_complete_build objs x hbuild (keyFaithful_of_ok hok) hv hnn n pod hpod ns
     hns i hprot res h q nsl hc pr p hp hal
 
 /-! ### non-vacuity: the engine of `C06.Examples` -/
@@ -249,9 +249,9 @@ example : ∃ res, xgressExposure ex wWeb true = .ok res ∧
       (en.entireCluster = true ∨ Sat en.podSel en.nsSel qClient nsDefault.labels) ∧
         denFor true en.conn qClient .TCP 8080 := by
   obtain ⟨res, hres⟩ := xgressExposure_ok ex (by decide) (by decide) (by decide) "default/web[Pod]" web
-    (by decide) (by decide) nsDefault (by decide) true
+    (by decide) nsDefault (by decide) true
   exact ⟨res, hres, exposure_complete ex rfl rfl (by decide) (by decide) (by decide) "default/web[Pod]"
-    web (by decide) (by decide) nsDefault (by decide) true (by decide) res hres qClient nsDefault.labels
+    web (by decide) nsDefault (by decide) true (by decide) res hres qClient nsDefault.labels
     .TCP 8080 (by decide) cov_qClient allowed_qClient⟩
 
 /-- the selectors of `np` have label syntax, hence the map key is injective and faithful on them -/
@@ -269,9 +269,9 @@ example : ∃ res, xgressExposure ex wWeb true = .ok res ∧
       Spec.npPeerMatches p (.sel podSel nsSel) (.pod qClient nsDefault.labels) = true ∧
       Omitted ex exObjs podSel (nsSel.getD (nsNameSelector p.ns)))) := by
   obtain ⟨res, hres⟩ := xgressExposure_ok ex (by decide) (by decide) (by decide) "default/web[Pod]" web
-    (by decide) (by decide) nsDefault (by decide) true
+    (by decide) nsDefault (by decide) true
   exact ⟨res, hres, exposure_complete_build exObjs ex build_ex keyFaithful_ex (by decide) (by decide)
-    "default/web[Pod]" web (by decide) (by decide) nsDefault (by decide) true (by decide) res hres
+    "default/web[Pod]" web (by decide) nsDefault (by decide) true (by decide) res hres
     qClient nsDefault.labels cons_qClient .TCP 8080 (by decide) allowed_qClient⟩
 
 /-- … and the syntactic form: label syntax only -/
@@ -284,9 +284,9 @@ example : ∃ res, xgressExposure ex wWeb true = .ok res ∧
       Spec.npPeerMatches p (.sel podSel nsSel) (.pod qClient nsDefault.labels) = true ∧
       Omitted ex exObjs podSel (nsSel.getD (nsNameSelector p.ns)))) := by
   obtain ⟨res, hres⟩ := xgressExposure_ok ex (by decide) (by decide) (by decide) "default/web[Pod]" web
-    (by decide) (by decide) nsDefault (by decide) true
+    (by decide) nsDefault (by decide) true
   exact ⟨res, hres, exposure_complete_build_syntactic exObjs ex build_ex (by decide)
-    (by decide) (by decide) "default/web[Pod]" web (by decide) (by decide) nsDefault (by decide) true
+    (by decide) (by decide) "default/web[Pod]" web (by decide) nsDefault (by decide) true
     (by decide) res hres qClient nsDefault.labels cons_qClient .TCP 8080 (by decide) allowed_qClient⟩
 
 /-! the documented omission: with a real pod `app=client` in `default`, `Exposure.build` removes
@@ -307,7 +307,7 @@ example : ∀ res, xgressExposure exOm wWeb true = .ok res →
         denFor true en.conn qClient .TCP 8080 := by
   intro res hres
   obtain ⟨ns, _, h1 | h1⟩ := xgressExposure_spec exOm (by decide) (by decide) "default/web[Pod]" web
-    (by decide) (by decide) true res hres
+    (by decide) true res hres
   · rintro ⟨entries, heq, _⟩
     rw [h1.2] at heq
     cases heq
@@ -452,15 +452,15 @@ example : ∃ res entries, xgressExposure xColl wWeb true = .ok res ∧ res = so
     (∃ en ∈ entries, (en.entireCluster = true ∨ Sat en.podSel en.nsSel qA_B nsDefault.labels) ∧
       denFor true en.conn qA_B .TCP 81) := by
   obtain ⟨res, hres⟩ := xgressExposure_ok xColl (by decide) (by decide) (by decide) "default/web[Pod]"
-    web (by decide) (by decide) nsDefault (by decide) true
+    web (by decide) nsDefault (by decide) true
   have hc1 : NsConsistent qAB nsDefault.labels := by unfold NsConsistent; decide
   have hc2 : NsConsistent qA_B nsDefault.labels := by unfold NsConsistent; decide
   obtain ⟨entries, rfl, h1⟩ := exposure_complete xColl rfl rfl (by decide) (by decide) (by decide)
-    "default/web[Pod]" web (by decide) (by decide) nsDefault (by decide) true (by decide) res hres qAB
+    "default/web[Pod]" web (by decide) nsDefault (by decide) true (by decide) res hres qAB
     nsDefault.labels .TCP 80 (by decide) (cov_coll qAB hc1)
     (C06.allowedDir_of_npAllows xColl.eng.toView rfl rfl web _ _ _ _ _ _ (by decide))
   obtain ⟨entries', he, h2⟩ := exposure_complete xColl rfl rfl (by decide) (by decide) (by decide)
-    "default/web[Pod]" web (by decide) (by decide) nsDefault (by decide) true (by decide) _ hres qA_B
+    "default/web[Pod]" web (by decide) nsDefault (by decide) true (by decide) _ hres qA_B
     nsDefault.labels .TCP 81 (by decide) (cov_coll qA_B hc2)
     (C06.allowedDir_of_npAllows xColl.eng.toView rfl rfl web _ _ _ _ _ _ (by decide))
   have : entries' = entries := by
